@@ -1166,6 +1166,15 @@ func (c *control) dirR(colon, at bool, params []any) {
 	if len(c.args) <= c.argPos {
 		slip.ErrorPanic(c.scope, 0, "missing argument for Radix directive at %d of %q", c.pos, c.str)
 	}
+	if 0 < len(params) && params[0] != nil {
+		// The ~radix,mincol,padchar,commachar,comma-intervalR form.
+		radix := c.getIntParam(0, params, 10, true)
+		if radix < 2 || 36 < radix {
+			c.invalidDirParam(c.str, c.pos)
+		}
+		c.dirInt(colon, at, params[1:], radix)
+		return
+	}
 	var (
 		digits []byte
 		words  []string
